@@ -16,7 +16,7 @@ import numpy as np
 LEVEL = "exploration"
 EXHAUSTIVE = {"quick": False, "thorough": False}
 RULE = (
-    "registry of 92 call forms (arithmetic, comparisons, astype/img_as/to_trichromatic(return_image=True)/to_monochromatic, "
+    "registry of 100 call forms (arithmetic, comparisons, astype/img_as/to_trichromatic(return_image=True)/to_monochromatic, "
     "subregion/time_slice/time_interval/slice, weight, superpose, stack, append, Resize/resize/equalize_voxel_size/"
     "uniform_refinement, reduce_axis/extrude_along_axis, models, Geometry.integrate/normalize, EMD, wasserstein_distance, "
     "zeros_like/ones_like, bounding_box, random_patches, coordinate conversions, layout helpers, Image(...) built from "
@@ -98,6 +98,31 @@ def build_registry(darsia, rng):
     add("rmul_int", [V1], lambda: ("arith", 3 * V1, 3 * V1.img))
     add("mul_npfloat64", [S1], lambda: ("arith", S1 * np.float64(1.5), S1.img * np.float64(1.5)))
     add("mul_int_image_by_int", [Ai], lambda: ("arith", Ai * 2, Ai.img * 2))
+    # integer-typed images with the documented scalar types (float, and an int that does not fit the dtype)
+    A8, B8 = img2(shp, dtype=np.uint8), img2(shp, dtype=np.uint16)
+    add("mul_uint8_image_by_float", [A8], lambda: ("arith", A8 * 2.5, A8.img * 2.5))
+    add("rmul_uint8_image_by_float", [A8], lambda: ("arith", 0.5 * A8, 0.5 * A8.img))
+    add("mul_uint8_image_by_large_int", [A8], lambda: ("arith", A8 * 300, A8.img * 300))
+    add("mul_int32_image_by_float", [Ai], lambda: ("arith", Ai * 1.5, Ai.img * 1.5))
+    add("add_uint8_uint16", [A8, B8], lambda: ("arith", A8 + B8, A8.img + B8.img))
+    add("sub_float32_float64", [A], lambda: ("arith", A.astype(np.float32) - A, A.img.astype(np.float32) - A.img))
+    # a result (or an extracted sub-image) is extended in place afterwards: the operands / the parent keep their own
+    # time stamps
+    Sg = img2(shp)
+    Sg.time = 9.0
+
+    def _sum_then_append():
+        r_ = S1 + S2
+        r_.append(Sg.copy())
+        return r_
+
+    def _sub_then_append():
+        c_ = S1.subregion((slice(0, shp[0] - 1), slice(0, shp[1])))
+        c_.append(darsia.Image(Sg.img[: shp[0] - 1].copy(), space_dim=2, dimensions=list(c_.dimensions), scalar=True, time=9.0))
+        return c_
+
+    add("sum_of_series_then_append_to_result", [S1, S2, Sg], _sum_then_append)
+    add("subregion_of_series_then_append_to_child", [S1, Sg], _sub_then_append)
     for nm, op in (("lt", lambda x, y: x < y), ("gt", lambda x, y: x > y), ("eq", lambda x, y: x == y), ("le", lambda x, y: x <= y), ("ge", lambda x, y: x >= y)):
         add(f"cmp_{nm}_image", [A, B], lambda op=op: ("arith", op(A, B), op(A.img, B.img)))
         add(f"cmp_{nm}_scalar", [A], lambda op=op: ("arith", op(A, 0.4), op(A.img, 0.4)))
@@ -382,7 +407,7 @@ def run_shard(spec, R):
 
 MANIFEST = {
     "technique": "snapshot monitor (deep content snapshots of every argument, of all live operands in call chains, and of the global numpy/python RNG state) around a fixed registry of call forms; array-arithmetic oracle",
-    "level_text": "Every call form of a 92-entry registry is executed on several random operand sets of every image kind with all arguments and the global random state snapshotted before and compared after; random chains of up to five calls on a shared operand pool (results fed back, so that metadata containers shared between images become observable) snapshot the whole pool at every step. Arithmetic results are compared bitwise with raw-array arithmetic for the documented scalar types.",
+    "level_text": "Every call form of a 100-entry registry is executed on several random operand sets of every image kind with all arguments and the global random state snapshotted before and compared after; random chains of up to five calls on a shared operand pool (results fed back, so that metadata containers shared between images become observable) snapshot the whole pool at every step. Arithmetic results are compared bitwise with raw-array arithmetic for the documented scalar types.",
     "level_note": "The registry is a fixed list (functions not in it are not observed); Image.append modifies its receiver by documentation, only its argument is judged.",
     "design_ref": "DESIGN.md section 3, C17",
 }
